@@ -55,6 +55,8 @@ CROPS = {
     "WW": ((10, 5), (8, 1), 1), "WG": ((9, 20), (7, 10), 1), "WR": ((9, 25), (7, 25), 1), "TR": ((9, 28), (7, 28), 1),
     "WRA": ((8, 25), (7, 20), 1),
 }
+EARLY_CUT = "@early"
+EARLY_HARVEST = {"SM": (8, 10), "WR": (5, 25), "WW": (6, 10), "OA": (6, 25), "SW": (6, 25)}
 SOY_VARIETIES = ["", "0", "00", "000", "0000", "i", "ii", "iii"]
 SUMMER = ["SM", "SOY", "SW", "OA", "K", "ZR", "LUP"]
 WINTER = ["WW", "WG", "WR", "TR", "WRA"]
@@ -71,6 +73,8 @@ def build_rotation(rnd, crops, start_year):
     rows, last = [], datetime.date(start_year - 1, 9, 30)
     for crp, var in crops:
         (sm, sd), (hm, hd), wrap = CROPS[crp]
+        if var == EARLY_CUT:
+            hm, hd = EARLY_HARVEST[crp]          # silage / green cut before the last stages are reached
         year = last.year
         while datetime.date(year, sm, sd) <= last + datetime.timedelta(days=7):
             year += 1
@@ -96,8 +100,9 @@ def write_project(ex, name, rows, nlevel, rnd, autosow=False):
     til = ["Field_ID  Ti Typ date", "          cm"]
     fert = ["Field_ID  N   Frt date"]
     for crp, var, sow, har in rows:
-        lines_csv.append("F1,%-3s,%s,%s,000,000,0,%s," % (crp, _d(*sow), _d(*har), var))
-        lines_txt.append("F1        %-3s %s %s 000 000 0 %s" % (crp, _d(*sow), _d(*har), var))
+        fvar = "" if var == EARLY_CUT else var
+        lines_csv.append("F1,%-3s,%s,%s,000,000,0,%s," % (crp, _d(*sow), _d(*har), fvar))
+        lines_txt.append("F1        %-3s %s %s 000 000 0 %s" % (crp, _d(*sow), _d(*har), fvar))
         # tillage three days before sowing
         tm, td, ty = sow
         td -= 3
@@ -301,6 +306,9 @@ def plan(ctx):
         # automatic sowing inside a window (temperature rule in April, latest date 31 May): a standing crop must not be sown again
         add([("SM", ""), ("SOY", rnd.choice(SOY_VARIETIES)), ("SM", "")], rnd.choice(["075", "160", "002"]), "historical", 1 + ctx.seed % 3,
             150, ctx.seed % 2 == 0, 1981 + rnd.randrange(0, 20), autosow=True)
+        # a cut before maturity (silage / green cut) after crops that matured: no stage day of the predecessor may be reported
+        add([(rnd.choice(["SW", "OA"]), ""), ("SM", EARLY_CUT), (rnd.choice(["SW", "OA", "LUP"]), ""), ("SM", EARLY_CUT)],
+            rnd.choice(["075", "160", "002", "041"]), "historical", 1 + (ctx.seed + 1) % 3, 150, ctx.seed % 2 == 0, 1981 + rnd.randrange(0, 18))
         # an overwintering crop north of the latitude where the effective day length vanishes around the winter solstice (58.6)
         # resp. the photoperiodic day lasts 24 h around the summer solstice (60.5)
         add([(rnd.choice(["WW", "WG", "WR", "TR"]), ""), ("WRA", "")], rnd.choice(["075", "160", "002", "041"]), "historical", 1 + (ctx.seed + 2) % 3,
@@ -331,6 +339,11 @@ def plan(ctx):
         for j in range(6):
             add([("SM", ""), ("SOY", SOY_VARIETIES[j]), ("SM", ""), ("SOY", SOY_VARIETIES[j + 2])], SOILS_ALL[(3 * j) % len(SOILS_ALL)],
                 ["historical", "drought", "frost"][j % 3], 1 + j % 3, [150, 0][j % 2], j % 2 == 0, 1981 + rnd.randrange(0, 18), autosow=True)
+        for j in range(8):
+            pre_ = ["SW", "OA", "LUP", "WG"][j % 4]
+            cut = ["SM", "WR", "WW", "OA"][j % 4]
+            add([(pre_, ""), (cut, EARLY_CUT), (["SW", "WRA"][j % 2], ""), ("SM", EARLY_CUT)], SOILS_ALL[(j + 4) % len(SOILS_ALL)],
+                ["historical", "frost", "drought"][j % 3], 1 + j % 3, [150, 0][j % 2], j % 2 == 0, 1981 + rnd.randrange(0, 17))
         for j, la in enumerate(HIGH_LATITUDES):
             add([(WINTER[j % 4], ""), ("WRA", ""), (WINTER[(j + 1) % 4], "")], SOILS_ALL[(2 * j) % len(SOILS_ALL)], ["historical", "frost"][j % 2],
                 1 + j % 3, [150, 60][j % 2], j % 2 == 0, 1981 + rnd.randrange(0, 18), lat=la)
@@ -602,7 +615,8 @@ def oracle(ctx, search):
         for row, x in zip(rows, tr):
             checked += 1
             dev = x["dev"]
-            want = (doy(x["sowdate"]), dev[1], dev[4], dev[5], x["doy"])
+            wd = x["want_dev"]
+            want = (doy(x["sowdate"]), wd[1], wd[4], wd[5], x["doy"])      # the days THIS crop reached the stages; 0 = not reached
             if row[8] is not None and (tuple(row[2:7]) != want or row[7] != x["sowdate"]):
                 fails.append(Fail(key="crop-file:phenology-differs-from-run:crop=%s" % x["crop"],
                                   what="crop file row %s, run reached %s (%s)" % (row, want, r_["tag"]), spec=r_["spec"], batch_line=r_["args"]))
